@@ -210,6 +210,22 @@ def bpLines (ls : List String) : Option (List BpLine) :=
       pure ⟨⟨own, side⟩, key rest "mark", key rest "stale" = "1"⟩
     | _ => none
 
+/-- `cache <ref> <view>` lines of a `dyld` case: what looking for the dylib in that cache yields, reduced to the
+debug id of the result -/
+def cacheLines (bin : Bool) (ls : List String) : Option (List (Load (Option (DebugId Id)))) :=
+  ls.mapM fun l =>
+    match words l with
+    | "cache" :: _ref :: v :: _ =>
+      if bin then (parseBinRes v).map fun
+        | .ok i => .ok i.debugId
+        | .unreadable => .unreadable
+        | .unparsable => .unparsable
+      else (parseSymRes v).map fun
+        | .ok i => .ok (some i.debugId)
+        | .unreadable => .unreadable
+        | .unparsable => .unparsable
+    | _ => none
+
 /-! ### model -/
 
 def showSymOut : SymOut Id → List String
@@ -260,6 +276,14 @@ def model (ls : List String) : List String :=
       match candLines parseBinRes rest with
       | none => ["bad-op"]
       | some cs => showBinOut (loadBinary native (parseBinReq kvs) cs)
+    | ["dyld", what, d] =>
+      match parseDisamb d, cacheLines (what = "bin") rest with
+      | some dis, some caches =>
+        match loadForDyldCacheImage (fun (x : Option (DebugId Id)) => x) dis caches with
+        | .ok a => ["ok " ++ showODid a]
+        | .noCache => ["err no-dyld-cache"]
+        | .lastErr e => ["err " ++ showErr e]
+      | _, _ => ["bad-op"]
     | ["fat", d] =>
       match parseDisamb d, parseFatMembers rest with
       | some _, some [] =>
@@ -443,6 +467,22 @@ def judge (ops impl : List String) : Bool × String :=
         | _ => (false, "bad output")
       | none, _ => (false, "bad-op")
       | _, _ => (false, "bad output")
+    | ["dyld", what, d] =>
+      match parseDisamb d, cacheLines (what = "bin") rest, impl with
+      | some dis, some caches, [l] =>
+        match words l with
+        | ["ok", id] =>
+          if !(caches.any fun c => match c with | .ok i => showODid i = id | _ => false) then
+            (false, s!"[not-a-candidate] no cache yields an image with debug id {id}")
+          else match dis with
+            | some (.debugId r) =>
+              if id = showDid r then (true, "ok") else (false, s!"[wrong-id] requested debug id {showDid r}, the result has {id}")
+            | _ => (true, "ok")   -- without a debug id nothing was requested "by id" (lib.rs:501 / :540)
+        | "err" :: _ => (true, "ok")
+        | _ => (false, "bad output")
+      | none, _, _ => (false, "bad-op")
+      | _, none, _ => (false, "bad-op")
+      | _, _, _ => (false, "bad output")
     | ["fat", d] =>
       match parseDisamb d, parseFatMembers rest, impl with
       | some dis, some ms, [b, s] =>
